@@ -56,7 +56,7 @@ pub fn esc(s: &str) -> String {
         if n > 0x20 && n < 0x7f && c != '\\' {
             out.push(c);
         } else {
-            write!(out, "\\{:x};", n).unwrap();
+            write!(out, "\\{:02x};", n).unwrap();
         }
     }
     out
